@@ -16,7 +16,7 @@ CLAIMED = {
 
 CLAIMED["C20"] = (
     "Go race detector + invocation-log/at-most-once monitor over concurrent FormatFile calls with recording stand-in tools",
-    "One shared generator.Formatters is hit by N goroutines released together, for tool configurations present/missing/failing, in a binary built with -race from the working tree; PATH holds only recording stand-ins. Decided on: race detector log (reports counted and de-duplicated), probe count per cache (<=1), one formatter run per request when present, nil error + untouched bytes when missing, non-nil error when failing. The real cmd binary (-race) is run in config mode writing >=6 files through its goroutine-per-output path. Held on the interleavings produced; overlap of tool processes and distinct completion orders are reported.",
+    "One shared generator.Formatters is hit by N goroutines released together, for tool configurations present/missing/failing (and: installed but not startable, damaged after its probe on the same cache), in a binary built with -race from the working tree; PATH holds only recording stand-ins. Decided on: race detector log (reports counted and de-duplicated), probe count per cache (<=1), one formatter run per request when present, nil error + untouched bytes when missing, non-nil error when failing (exit status, killed by a signal, or cannot be started). The real cmd binary (-race) is run in config mode writing >=6 files through its goroutine-per-output path. Held on the interleavings produced; overlap of tool processes and distinct completion orders are reported.",
     "Trusted: stand-in tools model the real ones (probe/format command lines read off formatters.go); race detector sees only executed interleavings.",
     "DESIGN.md section 5 / C20",
 )
@@ -103,7 +103,7 @@ CLAIMED["C16"] = (
 
 CLAIMED["C04"] = (
     "offline checker over recorded events: documents written by the compiled Go package and type-directed corruptions of them are evaluated against the generated CHECKs by a PL/pgSQL-subset interpreter with SQL three-valued logic",
-    "For every jsonb column of every synthesised model file, documents marshalled from seeded values of the column's Go type (generated union wrappers compiled in) are bound to the column and the generated CHECK + validation functions are evaluated under modelled PostgreSQL semantics: never FALSE or error on emitted documents; FALSE on single-point corruptions of the five classes directed by the JSON shape computed from go/types; every called function defined in the same script. Held on the documents and corruptions produced.",
+    "For every jsonb column of every synthesised model file, documents marshalled from seeded values of the column's Go type (generated union wrappers compiled in) are bound to the column and the generated CHECK + validation functions are evaluated under modelled PostgreSQL semantics: never FALSE or error on emitted documents; FALSE on single-point corruptions of the five classes (unknown key in struct objects and in the {Kind, Data} objects of unions, wrong JSON kind, unknown union Kind, non-member enum value, wrong fixed-array length) directed by the JSON shape computed from go/types; every called function defined in the same script. Held on the documents and corruptions produced.",
     "PostgreSQL is modelled, not run (harness/support/pgmodel: strict builtins, Kleene logic, CHECK passes on TRUE/NULL, plan-time type errors); unsupported constructs make a verdict inconclusive, never accepted.",
     "DESIGN.md section 5 / C04",
 )
